@@ -2,6 +2,7 @@
 CONSTANTS
   Threads <- T2
   Keys <- K3
+  DirectKeys = {}
   DepsOpts <- AllGraphs
   LoadsOpts <- W2_2
   SharedOpts = {TRUE, FALSE}
